@@ -18,7 +18,7 @@ ADD_FAULTS = [("solution", "rank"), ("solution", "inner"), ("objective", "rank")
               ("measures", "rank"), ("measures", "inner"), ("measures", "length"), ("measures", "nan"),
               ("measures", "inf"), ("extra", "missing"), ("extra", "unknown"), ("extra", "length"),
               ("extra", "inner"), ("extra", "flat"), ("extra", "text"), ("solution", "text"),
-              ("objective", "text"), ("measures", "text"), ("extra", "objseq")]
+              ("objective", "text"), ("measures", "text"), ("extra", "objseq"), ("extra", "ragged")]
 SINGLE_FAULTS = [("solution", "rank"), ("solution", "inner"), ("objective", "rank"), ("objective", "nan"), ("objective", "inf"),
                  ("objective", "none"), ("measures", "rank"), ("measures", "inner"), ("measures", "nan"),
                  ("measures", "ninf"), ("extra", "missing"), ("extra", "unknown"), ("extra", "inner"),
@@ -28,10 +28,10 @@ QUERY_FAULTS = [("measures", "rank"), ("measures", "inner"), ("measures", "nan")
 TELL_FAULTS = [("objective", "length"), ("objective", "nan"), ("objective", "rank"), ("measures", "inner"),
                ("measures", "length"), ("measures", "inf"), ("extra", "missing"), ("extra", "length"),
                ("extra", "inner"), ("objective", "overflow"), ("extra", "flat"), ("extra", "text"),
-               ("objective", "text"), ("extra", "objseq")]
+               ("objective", "text"), ("extra", "objseq"), ("extra", "ragged")]
 # kinds for which NumPy's own semantics may make the call valid (a flat array that happens to broadcast): the call
 # is first tried on a deep copy and injected only if that copy rejects it
-DRY_RUN_KINDS = {"flat", "text"}
+DRY_RUN_KINDS = {"flat", "text", "ragged"}
 
 
 def faults_for(entry):
@@ -170,7 +170,16 @@ def corrupt(fault, sol, obj, meas, extras, layout, single, dt="f64", mdt=None):
             meas[pos, fault["field"] % meas.shape[1]] = bad[kind]
     elif arg == "extra":
         names = [EXTRA_DESC[c][0] for c in layout]
-        if kind == "objseq":
+        if kind == "ragged":
+            # an object field with pair entries given as an object array of sequences, one of them of another length
+            if "t" not in layout or len(obj) < 2:
+                return None
+            rag = np.empty(len(obj), dtype=object)
+            for k in range(len(obj)):
+                rag[k] = ["x", k]
+            rag[max(1, pos)] = ["x", 1, 2]
+            extras = dict(extras, ex_t=rag)
+        elif kind == "objseq":
             if "o" not in layout:
                 return None
             extras = dict(extras, ex_o=[(t, t + 1, t + 2) for t in range(len(obj))])
